@@ -222,7 +222,7 @@ theorem ranges_exclusive {n z : Nat} (hz : z < 8) {s : State} (h : genUpTo z n =
 /-! ### the finite table (kernel-evaluated in `Proofs/C16/T*.lean`) -/
 
 /-- number of the last instance covered by the kernel-evaluated table. -/
-def tableN : Nat := 6
+def tableN : Nat := 16
 
 theorem finite_table {z n : Nat} (hz : z < 8) (hn : n ≤ tableN) :
     ∃ s, genUpTo z n = .ok s ∧ s.degenerate = false ∧ SpreadOK s := by
